@@ -112,6 +112,9 @@ def scenarios(draw):
                         "read_col_only": src.bool(0.25)} if mode == "file" else None
     sc["groups"] = groups
     sc["tq"], sc["gq"] = tq, gq
+    # the files of the experiment given in a YAML file, with paths relative to it
+    if mode == "file_name" and src.bool(0.5):
+        sc["yaml_input"] = src.choice(["plain", "dot", "updown", "mixed", "absolute"])
     return sc
 
 
